@@ -6,6 +6,8 @@ use crate::val::{hex, parse_val, show, unhex};
 use borsh::{BorshDeserialize, BorshSerialize};
 
 pub type RunFn = fn(&str, &[&str]) -> String;
+#[cfg(any(feature = "cfg_std", feature = "cfg_nostd"))]
+pub use crate::ops_schema_ty::sch; // typed schema ops (second registration list)
 
 pub struct Entry {
     pub id: u32,
@@ -156,19 +158,37 @@ fn rt_ops<T: Model + BorshSerialize + BorshDeserialize>(op: &str, args: &[&str])
     }
 }
 
+// Ops contributed by the other modules of the harness.  The derive_harness crate shares this
+// file by path without those modules (it enables neither cfg_std nor cfg_nostd).
+#[cfg(any(feature = "cfg_std", feature = "cfg_nostd"))]
+fn ext_full<T: Model + BorshSerialize + BorshDeserialize>(op: &str, args: &[&str]) -> Option<String> {
+    crate::ops_io::io_ser_ops::<T>(op, args)
+        .or_else(|| crate::ops_io::io_de_ops::<T>(op, args))
+        .or_else(|| crate::ops_canon::ops::<T>(op, args))
+}
+#[cfg(any(feature = "cfg_std", feature = "cfg_nostd"))]
+fn ext_ser<T: Model + BorshSerialize>(op: &str, args: &[&str]) -> Option<String> {
+    crate::ops_io::io_ser_ops::<T>(op, args).or_else(|| crate::ops_canon::ops::<T>(op, args))
+}
+#[cfg(not(any(feature = "cfg_std", feature = "cfg_nostd")))]
+fn ext_full<T: Model + BorshSerialize + BorshDeserialize>(_op: &str, _args: &[&str]) -> Option<String> {
+    None
+}
+#[cfg(not(any(feature = "cfg_std", feature = "cfg_nostd")))]
+fn ext_ser<T: Model + BorshSerialize>(_op: &str, _args: &[&str]) -> Option<String> {
+    None
+}
+
 pub fn run_full<T: Model + BorshSerialize + BorshDeserialize>(op: &str, args: &[&str]) -> String {
     ser_ops::<T>(op, args)
         .or_else(|| de_ops::<T>(op, args))
         .or_else(|| rt_ops::<T>(op, args))
-        .or_else(|| crate::ops_io::io_ser_ops::<T>(op, args))
-        .or_else(|| crate::ops_io::io_de_ops::<T>(op, args))
-        .or_else(|| crate::ops_canon::ops::<T>(op, args))
+        .or_else(|| ext_full::<T>(op, args))
         .unwrap_or_else(|| format!("harness-error unknown op {}", op))
 }
 pub fn run_ser<T: Model + BorshSerialize>(op: &str, args: &[&str]) -> String {
     ser_ops::<T>(op, args)
-        .or_else(|| crate::ops_io::io_ser_ops::<T>(op, args))
-        .or_else(|| crate::ops_canon::ops::<T>(op, args))
+        .or_else(|| ext_ser::<T>(op, args))
         .unwrap_or_else(|| "skip ser-only".to_string())
 }
 
